@@ -19,7 +19,6 @@ type Schema struct {
 
 	pattern       string
 	compileOnce   sync.ErrOnce
-	generatorOnce sync.ErrOnceWithValue[*reggen.Generator]
 	generatorSeed int64
 }
 
@@ -87,17 +86,14 @@ func (s *Schema) generateExample() (b []byte, err error) {
 		}
 	}()
 
-	g, err := s.generatorOnce.Do(func() (*reggen.Generator, error) {
-		g, err := reggen.NewGenerator(s.pattern)
-		if err != nil {
-			return nil, err
-		}
-		g.SetSeed(s.generatorSeed)
-		return g, nil
-	})
+	// A generator carries the state of its random source, so a fresh one is
+	// made for every call: the example is the same from call to call, and
+	// goroutines sharing the schema do not share a random source.
+	g, err := reggen.NewGenerator(s.pattern)
 	if err != nil {
 		return nil, err
 	}
+	g.SetSeed(s.generatorSeed)
 
 	return []byte(g.Generate(1)), nil
 }
